@@ -701,3 +701,40 @@ func doDeterminism(seed uint64, n int) int {
 	}
 	return 0
 }
+
+// doRepro: development helper - run one configuration, minimise and write replay files for what it shows.
+func doRepro(path, prop string) int {
+	b, err := os.ReadFile(path)
+	if err != nil {
+		die2("repro: %v", err)
+	}
+	var cfg map[string]any
+	if err := json.Unmarshal(b, &cfg); err != nil {
+		die2("repro: %v", err)
+	}
+	build(false)
+	defer cleanup()
+	o := runOne(cfg, 120*time.Second)
+	if o.harness != "" {
+		die2("repro: %s", o.harness)
+	}
+	seen := map[string]bool{}
+	if o.panicSig != "" {
+		fmt.Println("panic:", o.panicSig, o.panicMsg)
+	}
+	if o.res == nil {
+		return 1
+	}
+	for _, v := range o.res.Violations {
+		if seen[v.Sig] || (prop != "" && v.Prop != prop) {
+			continue
+		}
+		seen[v.Sig] = true
+		f := &found{sig: v.Sig, prop: v.Prop, msg: v.Msg, out: o, count: 1}
+		fmt.Printf("%s step %d: %s\n  replay: %s\n", v.Sig, v.Step, oneLine(v.Msg, 300), reportViolation(v.Prop, f))
+		if len(seen) >= 3 {
+			break
+		}
+	}
+	return 0
+}
